@@ -2,9 +2,10 @@
 # usage: try_seed.sh <seeded-id, e.g. C03-a> [property id (default: prefix of the seeded id)] [tier]
 # Applies the seeded change to a scratch worktree of /repo (outside /repo and /verif), runs the property's check against it
 # (VERIF_REPO), prints the last lines and removes the worktree again.
+VERIF=$(cd "$(dirname "$0")/.." && pwd)
 SID=$1; PID=${2:-${SID%%-*}}; TIER=${3:-quick}
 WT=/tmp/seedtry-$SID-$$
 git -C /repo worktree add -q --detach $WT HEAD || exit 2
-trap 'git -C /repo worktree remove --force $WT 2>/dev/null; rm -rf $WT; rm -f /verif/harness/alt_tmp_seedtry*' EXIT
-git -C $WT apply /verif/seeded/$SID/patch.diff || { echo "patch does not apply"; exit 2; }
-cd /verif && VERIF_REPO=$WT timeout 3000 python3 tools/check.py $PID --tier $TIER 2>&1 | grep -v '^KNOWN-FINDING' | tail -4
+trap 'git -C /repo worktree remove --force $WT 2>/dev/null; rm -rf $WT; rm -f $VERIF/harness/alt_tmp_seedtry*' EXIT
+git -C $WT apply $VERIF/seeded/$SID/patch.diff || { echo "patch does not apply"; exit 2; }
+cd $VERIF && VERIF_REPO=$WT timeout 3000 python3 tools/check.py $PID --tier $TIER 2>&1 | grep -v '^KNOWN-FINDING' | tail -4
